@@ -69,7 +69,18 @@ ARCHS = [None, 0, 1, 5, 42, 999]
 DFLT = 'dflt'           # leave the arch_index argument out (add_file: 0, FileInfo.write: None)
 NOTABLE_SIZES = [0, 1, 2, 6, 7, 8, 1023, 1024, 1025, 65534, 65535, 65536, 65537, 69999, 70000, 70001,
                  131072, 200000, 300 * 1024]
-SPELLINGS = ('str', 'pair', 'triple')
+FORMS = ('str', 'pair', 'triple', 'triple_unsplit')
+# Spellings of the FOLDER part that srctools documents / implements as the same folder ("Strip '/' off the end, and './'
+# from the beginning", backslashes become '/', '.' is the root): what os.walk(), os.path.join(), shell completion or a
+# Windows tool hand to a caller.  Every one of them is put into every form.
+FOLDER_VARIANTS = ('canon', 'trail_slash', 'dot_slash', 'backslash', 'trail_dot', 'double_slash', 'trail_backslash')
+# code -> (form, folder variant).  Codes 0..2 are the canonical str / 2-tuple / 3-tuple forms (old replays keep their meaning).
+SPELL_TABLE = [(0, 0), (1, 0), (2, 0)] + [(f, v) for v in range(len(FOLDER_VARIANTS)) for f in range(len(FORMS))
+                                          if not (v == 0 and f < 3)]
+N_SPELL = len(SPELL_TABLE)
+PREFIXES = [('', []), ('pre', ['pre']), ('pre/sub', ['pre', 'sub']), ('pre/', ['pre']), ('pre\\sub', ['pre', 'sub']),
+            ('./pre', ['pre'])]
+FOLDER_ARGS = ('plain', 'trail_sep', 'dot_inside', 'trail_double_sep', 'relative', 'relative_trail_sep')
 
 
 # ---------------------------------------------------------------------------------------------- helpers
@@ -141,14 +152,54 @@ def valid_name(name) -> bool:
     return folder != ' ' and cstem != ' ' and cext != ' '
 
 
-def spell(key, how: int):
+def folder_variant(folder: str, v: int) -> str:
+    """A non-canonical spelling of the canonical folder path `folder` ('' = root) that names the same folder."""
+    if v == 0:
+        return folder
+    if not folder:
+        return ('', './', '.', '', '.', './/', '')[v]
+    if v == 1:
+        return folder + '/'
+    if v == 2:
+        return './' + folder
+    if v == 3:
+        return folder.replace('/', '\\')
+    if v == 4:
+        return folder + '/.'
+    if v == 5:
+        return './' + folder.replace('/', '//') + '//'
+    return folder.replace('/', '\\') + '\\'
+
+
+def spell(key, code: int):
+    """One spelling of the file `key`: form (str / 2-tuple / 3-tuple / 3-tuple with the extension left in the name)
+    x folder spelling.  All of them are built from the same (folder spelling, stem, ext), so they name the same file."""
+    form, v = SPELL_TABLE[code % N_SPELL]
     folder, stem, ext = key
+    folder = folder_variant(folder, v)
     fname = stem + ('.' + ext if ext else '')
-    if how == 0:
+    if form == 0:
         return folder + '/' + fname if folder else fname
-    if how == 1:
+    if form == 1:
         return (folder, fname)
-    return (folder, stem, ext)
+    if form == 2:
+        return (folder, stem, ext)
+    return (folder, fname, '')
+
+
+def spell_name(code: int) -> str:
+    form, v = SPELL_TABLE[code % N_SPELL]
+    return FORMS[form] + ('' if v == 0 else '+' + FOLDER_VARIANTS[v])
+
+
+def disk_conflict(paths) -> bool:
+    """True if one of the file paths (tuples of components) is also a directory of another one."""
+    files = set(paths)
+    for p in files:
+        for i in range(1, len(p)):
+            if p[:i] in files:
+                return True
+    return False
 
 
 def limit_class(limit) -> str:
@@ -203,10 +254,13 @@ def arch_filename(base: str, single: bool) -> str:
 class Machine:
     """Runs one history against the real VPK class and the reference model."""
 
-    def __init__(self, ctx, single: bool, tmp: str, allow_fail: bool = False, base: str = 'x') -> None:
+    def __init__(self, ctx, single: bool, tmp: str, allow_fail: bool = False, base: str = 'x', side: str = '') -> None:
         self.ctx = ctx
         self.single = single
         self.tmp = tmp
+        self.side = side                  # scratch space for add_folder sources / extract_all targets (not the archive's folder)
+        self.n_side = 0
+        self.want_extract = False
         self.path = os.path.join(tmp, arch_filename(base, single))
         self.allow_fail = allow_fail
         self.disk_state = 'absent'        # absent | empty (0-byte file made by VPK()) | valid
@@ -343,7 +397,7 @@ class Machine:
         key = canon(name)
         vpk = self.vpk
         spelled = spell(key, sp)
-        self.spellings_used.add(sp)
+        self.spellings_used.add(sp % N_SPELL)
         if self.mode == 'r':
             if via_new:
                 self.expect_readonly(lambda: vpk.new_file(spelled), f'new_file({spelled!r})')
@@ -397,7 +451,7 @@ class Machine:
     def overwrite_key(self, key, sp: int, data_d, arch) -> None:
         vpk = self.vpk
         spelled = spell(key, sp)
-        self.spellings_used.add(sp)
+        self.spellings_used.add(sp % N_SPELL)
         data = expand(data_d)
         info = vpk[spelled]
         if self.mode == 'r':
@@ -416,7 +470,7 @@ class Machine:
             return
         vpk = self.vpk
         spelled = spell(key, sp)
-        self.spellings_used.add(sp)
+        self.spellings_used.add(sp % N_SPELL)
         if self.mode == 'r':
             def do() -> None:
                 del vpk[spelled]
@@ -532,6 +586,82 @@ class Machine:
             self.labels.add('fail:blocked_' + kind)
         # (if nothing was raised the mutation succeeded and the model was updated by the normal path)
 
+    # ---- bulk entry points: add_folder() from a disk tree, extract_all() to a disk tree
+    def add_folder(self, names, fv: int, pv: int, files) -> None:
+        """Build a source tree from pool names, add it with VPK.add_folder(<folder spelling>, <prefix>).
+
+        Expected archive name of every file = prefix + its path relative to the added folder.
+        """
+        vpk = self.vpk
+        prefix, pparts = PREFIXES[pv % len(PREFIXES)]
+        self.n_side += 1
+        src = os.path.join(self.side, 'src%d' % self.n_side)
+        os.mkdir(src)
+        planned: dict = {}
+        rels: list = []
+        for name_i, data_d in files:
+            parts, stem, ext = names[name_i % len(names)]
+            key = canon([list(pparts) + list(parts), stem, ext])
+            fname = stem + ('.' + ext if ext else '')
+            rel = tuple(parts) + (fname,)
+            if key in self.model or key in planned or disk_conflict(rels + [rel]):
+                continue        # add_folder of an existing name stops half-way in os.walk() order: not generated
+            rels.append(rel)
+            planned[key] = expand(data_d)
+            os.makedirs(os.path.join(src, *parts), exist_ok=True)
+            with open(os.path.join(src, *rel), 'wb') as f:
+                f.write(planned[key])
+        fv %= len(FOLDER_ARGS)
+        arg = {
+            0: src, 1: src + os.sep, 2: os.path.join(self.side, '.', os.path.basename(src)), 3: src + os.sep + os.sep,
+            4: os.path.relpath(src), 5: os.path.relpath(src) + os.sep,
+        }[fv]
+        args = (arg, prefix) if prefix else (arg,)
+        if self.mode == 'r':
+            self.expect_readonly(lambda: vpk.add_folder(*args), f'add_folder{args!r}')
+            return
+        vpk.add_folder(*args)
+        for key, data in planned.items():
+            self._note_write(key, data, DFLT, 'add_folder')
+        self.labels.add('op:add_folder')
+        if planned:
+            self.labels.add('addfolder:arg_' + FOLDER_ARGS[fv])
+            self.labels.add('addfolder:prefix' if prefix else 'addfolder:no_prefix')
+            if any(len(r) > 1 for r in rels):
+                self.labels.add('addfolder:subfolders')
+            if any(len(r) > 2 for r in rels):
+                self.labels.add('addfolder:nested_subfolders')
+            if any(len(r) == 1 for r in rels):
+                self.labels.add('addfolder:toplevel_file')
+            if fv in (1, 3, 5) and any(len(r) > 1 for r in rels):
+                self.labels.add('addfolder:trail_sep+subfolders')
+
+    def check_extract(self, fresh, w: str) -> None:
+        """extract_all() of the reopened archive gives exactly the model as a disk tree."""
+        model = self.model
+        paths = {key: tuple(p for p in key[0].split('/') if p) + (vpkref.join_name('', key[1], key[2]),) for key in model}
+        if disk_conflict(list(paths.values())):
+            return              # 'a/b' is a file and 'a/b/c' too: no disk tree can hold both
+        self.n_side += 1
+        dest = os.path.join(self.side, 'out%d' % self.n_side)
+        os.mkdir(dest)
+        fresh.extract_all(dest)
+        self.labels.add('extract_all')
+        got = {}
+        for root, _dirs, fnames in os.walk(dest):
+            for fn in fnames:
+                full = os.path.join(root, fn)
+                with open(full, 'rb') as f:
+                    got[tuple(os.path.relpath(full, dest).split(os.sep))] = f.read()
+        want = {paths[key]: data for key, data in model.items()}
+        self.ctx.check(sorted(got) == sorted(want), 'extract_names',
+                       f'{w}extract_all() created {sorted(got)!r}, model has {sorted(want)!r}')
+        for path in sorted(want):
+            if path in got and got[path] != want[path]:
+                self.ctx.fail('extract_data', f'{w}extract_all() wrote {short(got[path])} to {"/".join(path)!r}, '
+                              f'last written {short(want[path])}')
+        shutil.rmtree(dest, ignore_errors=True)
+
     # ---- the invariant
     def verify_fresh(self, when: str) -> None:
         from srctools.vpk import VPK
@@ -552,21 +682,21 @@ class Machine:
             meta = self.meta[key]
             facts = dict(meta, key=list(key))
             first = None
-            for sp in range(3):
+            for sp in range(N_SPELL):
                 spelled = spell(key, sp)
                 if not ctx.check(spelled in fresh, 'resolve',
-                                 f'{w}{spelled!r} ({SPELLINGS[sp]} form) is not `in` the fresh VPK; model key {key!r}', **facts):
+                                 f'{w}{spelled!r} ({spell_name(sp)} form) is not `in` the fresh VPK; model key {key!r}', **facts):
                     continue
                 try:
                     info = fresh[spelled]
                 except KeyError:
-                    ctx.fail('resolve', f'{w}fresh[{spelled!r}] ({SPELLINGS[sp]} form) raised KeyError; model key {key!r}', **facts)
+                    ctx.fail('resolve', f'{w}fresh[{spelled!r}] ({spell_name(sp)} form) raised KeyError; model key {key!r}', **facts)
                     continue
                 if first is None:
                     first = info
                 else:
                     ctx.check(info is first, 'resolve',
-                              f'{w}{SPELLINGS[sp]} form {spelled!r} resolves to {info!r}, the str form to {first!r}', **facts)
+                              f'{w}{spell_name(sp)} form {spelled!r} resolves to {info!r}, the str form to {first!r}', **facts)
             if first is None:
                 continue
             got = first.read()
@@ -576,9 +706,12 @@ class Machine:
                          f'(first difference at byte {first_diff(got, data)}); written with {meta}', **facts)
             ctx.check(first.verify(), 'verify', f'{w}{vpkref.join_name(*key)!r}: verify() is False; written with {meta}', **facts)
         ctx.check(fresh.verify_all(), 'verify_all', f'{w}verify_all() is False')
+        if self.want_extract:
+            self.want_extract = False
+            self.check_extract(fresh, w)
 
         for key in sorted(self.ever - set(model)):
-            for sp in range(3):
+            for sp in range(N_SPELL):
                 spelled = spell(key, sp)
                 ctx.check(spelled not in fresh, 'absent', f'{w}deleted/unwritten file {spelled!r} is still `in` the fresh VPK')
                 try:
@@ -637,8 +770,11 @@ class Machine:
 
 
 def run_history(desc, ctx, allow_fail: bool = False) -> Machine:
-    tmp = tempfile.mkdtemp(prefix='verif_c13_')
-    m = Machine(ctx, bool(desc['single']), tmp, allow_fail=allow_fail, base=desc.get('base', 'x'))
+    root = tempfile.mkdtemp(prefix='verif_c13_')
+    tmp, side = os.path.join(root, 'vpk'), os.path.join(root, 'side')
+    os.mkdir(tmp)
+    os.mkdir(side)
+    m = Machine(ctx, bool(desc['single']), tmp, allow_fail=allow_fail, base=desc.get('base', 'x'), side=side)
     ctx.label('base:' + ('x' if desc.get('base', 'x') == 'x' else 'ends_in_dir_chars' if desc['base'][-1:] in '_dir' else 'other'))
     names = desc['names']
     try:
@@ -660,6 +796,10 @@ def run_history(desc, ctx, allow_fail: bool = False) -> Machine:
                     m.delete(cmd[1], cmd[2])
                 elif op == 'write':
                     m.write()
+                elif op == 'add_folder':
+                    m.add_folder(names, cmd[1], cmd[2], cmd[3])
+                elif op == 'extract':
+                    m.want_extract = True       # the next fresh reopen also extracts everything to disk
                 elif op == 'collide':
                     m.collide(cmd[1], cmd[2], cmd[3], cmd[4])
                 elif op == 'add_crc0':
@@ -680,7 +820,7 @@ def run_history(desc, ctx, allow_fail: bool = False) -> Machine:
             for lab in sorted(m.labels):
                 ctx.label(lab)
     finally:
-        shutil.rmtree(tmp, ignore_errors=True)
+        shutil.rmtree(root, ignore_errors=True)
     return m
 
 
@@ -733,10 +873,12 @@ def open_args(modes, limits):
                      st.sampled_from(['write', 'write', 'exit', 'exit', 'abandon']), st.booleans())
 
 
-def history_strategy(tier: str, *, names, limits, archs, over_archs, max_size, singles, extra_cmds=(), name_pool=None, data=None):
+def history_strategy(tier: str, *, names, limits, archs, over_archs, max_size, singles, extra_cmds=(), name_pool=None, data=None,
+                     all_spellings=False, bulk=True):
     max_cmds = 12 if tier == 'quick' else 20
     sel = st.integers(0, 7)
-    sp = st.integers(0, 2)
+    # 0..2 canonical forms; with all_spellings every form x folder spelling (half of the draws stay canonical)
+    sp = st.one_of(st.integers(0, 2), st.integers(0, N_SPELL - 1)) if all_spellings else st.integers(0, 2)
     data = data_desc(max_size) if data is None else data
     modes = ['w', 'a', 'a', 'a', 'r']
     cmds = [
@@ -751,6 +893,11 @@ def history_strategy(tier: str, *, names, limits, archs, over_archs, max_size, s
         st.tuples(st.just('del'), sel, sp),
         open_args(modes, limits).map(lambda t: ('open',) + t),
     ]
+    if bulk:
+        small = st.tuples(st.integers(0, 2100), st.integers(0, 50)).map(list)
+        cmds.append(st.tuples(st.just('add_folder'), st.integers(0, len(FOLDER_ARGS) - 1), st.integers(0, len(PREFIXES) - 1),
+                              st.lists(st.tuples(sel, small).map(list), min_size=1, max_size=4)))
+        cmds.append(st.tuples(st.just('extract')))
     cmds.extend(extra_cmds)
     return st.fixed_dictionaries({
         'single': st.sampled_from(singles),
@@ -764,7 +911,7 @@ def history_strategy(tier: str, *, names, limits, archs, over_archs, max_size, s
 def placement_strategy(tier: str):
     return history_strategy(
         tier, names=st.just(SIMPLE_NAMES), limits=LIMITS, archs=ARCHS + [DFLT], over_archs=ARCHS + [DFLT, DFLT],
-        max_size=300 * 1024, singles=[False, False, True],
+        max_size=300 * 1024, singles=[False, False, True], all_spellings=True,
     )
 
 
@@ -774,7 +921,7 @@ def moves_strategy(tier: str):
     same = st.tuples(st.sampled_from([24, 24, 24, 40, 8]), st.integers(0, 50)).map(list)
     return history_strategy(
         tier, names=st.just(SIMPLE_NAMES), limits=[0, 7], archs=[0, 1, None], over_archs=[0, 1, None, 1, 0],
-        max_size=64, singles=[False], data=same,
+        max_size=64, singles=[False], data=same, bulk=False,
     )
 
 
@@ -786,7 +933,7 @@ SAFE_OVER_ARCHS = [0, 1, 5]
 def names_strategy(tier: str):
     return history_strategy(
         tier, names=st.lists(rich_name(), min_size=1, max_size=6), limits=SAFE_LIMITS, archs=SAFE_ARCHS,
-        over_archs=SAFE_OVER_ARCHS, max_size=3000, singles=[False, True],
+        over_archs=SAFE_OVER_ARCHS, max_size=3000, singles=[False, True], all_spellings=True,
     )
 
 
@@ -848,15 +995,23 @@ def readonly_strategy(tier: str):
 
 # ---------------------------------------------------------------------------------------------- executes
 
+def label_spellings(m, ctx) -> None:
+    for sp in sorted(m.spellings_used):
+        form, v = SPELL_TABLE[sp % N_SPELL]
+        ctx.label('spelling:' + FORMS[form])
+        if v:
+            ctx.label('folderspelling:' + FOLDER_VARIANTS[v], 'noncanonical:' + FORMS[form])
+
+
 def execute_placement(desc, ctx):
     m = run_history(desc, ctx)
+    label_spellings(m, ctx)
     ctx.nontrivial(m.saw_split and m.change_reread)
 
 
 def execute_names(desc, ctx):
     m = run_history(desc, ctx)
-    for sp in sorted(m.spellings_used):
-        ctx.label('spelling:' + SPELLINGS[sp])
+    label_spellings(m, ctx)
     ctx.nontrivial(m.fancy_committed and len(m.spellings_used) >= 2)
 
 
